@@ -106,12 +106,28 @@ type execResult struct {
 	// are still blocked when the bubble ends as a deadlock panic).
 	Panic  string
 	Leaked []string
+	// Events are the events that were attempted, in order.
+	Events []Event
 }
 
 var executions atomic.Int64
 
 // execute runs one path in a fresh bubble.
 func execute(t *testing.T, cfg *Config, events []Event, keepKey bool, logf func(string, ...interface{})) (res execResult) {
+	return executeDriven(t, cfg, func(w *world, step func(Event) bool) {
+		for _, ev := range events {
+			if !step(ev) {
+				return
+			}
+		}
+	}, keepKey, logf)
+}
+
+// executeDriven runs one history in a fresh bubble; the history is produced by
+// drive, which calls step(event) for each event (and may look at harness-
+// visible state of the world in between); step reports false when the history
+// must end (event not applicable, violation seen, multiplexer down).
+func executeDriven(t *testing.T, cfg *Config, drive func(w *world, step func(Event) bool), keepKey bool, logf func(string, ...interface{})) (res execResult) {
 	executions.Add(1)
 	defer func() {
 		if p := recover(); p != nil {
@@ -123,28 +139,36 @@ func execute(t *testing.T, cfg *Config, events []Event, keepKey bool, logf func(
 		w.logf = logf
 		w.quiesce()
 		res.OK = true
-		for i, ev := range events {
+		i := 0
+		step := func(ev Event) bool {
+			if res.Terminal || !res.OK {
+				return false
+			}
 			if logf != nil {
 				logf("step %d: %s", i, ev)
 			}
+			res.Events = append(res.Events, ev)
 			if !w.do(ev, i) {
 				if logf != nil {
 					logf("    (event not applicable in this state)")
 				}
 				res.OK = false
-				break
+				return false
 			}
 			w.quiesce()
 			w.observe(i)
-			res.Applied = i + 1
+			i++
+			res.Applied = i
 			if logf != nil {
 				logf("    state:\n      %s", strings.ReplaceAll(strings.TrimSpace(w.key()), "\n", "\n      "))
 			}
 			if len(w.viol) > 0 || w.internalError || ev.K == "closeMux" {
 				res.Terminal = true
-				break
+				return false
 			}
+			return true
 		}
+		drive(w, step)
 		if res.OK && !res.Terminal {
 			key := w.key()
 			res.Hash = sha1.Sum([]byte(key))
@@ -153,7 +177,7 @@ func execute(t *testing.T, cfg *Config, events []Event, keepKey bool, logf func(
 			}
 			res.Menu = w.menu()
 		}
-		res.Leaked = w.teardown(len(events))
+		res.Leaked = w.teardown(i)
 		res.Viol = w.viol
 		res.InternalError = w.internalError
 		res.MaxPending = w.maxPending
@@ -165,12 +189,26 @@ func execute(t *testing.T, cfg *Config, events []Event, keepKey bool, logf func(
 	return res
 }
 
+// scenario is a history produced by a driver policy instead of a fixed event
+// list: the driver decides the next event from harness-visible state (e.g.
+// "write on every stream that has no Write outstanding"), which keeps long
+// timed histories applicable even where the code under test makes a choice the
+// harness does not own (Go's select between a due heartbeat and queued data).
+type scenario struct {
+	Name   string
+	Config Config
+	Drive  func(w *world, step func(Event) bool)
+}
+
 // replayCase is what a replay file holds: the configuration and the complete
 // event list (preamble included).
 type replayCase struct {
 	Config Config  `json:"config"`
 	Events []Event `json:"events"`
 	Path   string  `json:"path"`
+	// Scenario, when set, names the driver policy that produced Events; a
+	// replay then re-runs the policy (Events are informational).
+	Scenario string `json:"scenario,omitempty"`
 }
 
 type node struct {
@@ -477,7 +515,7 @@ func startWatchdog() func() {
 }
 
 // runProperty is the body shared by TestC23, TestC24 and TestC25.
-func runProperty(t *testing.T, prop string, configs []*Config, scripted []replayCase, rule string, assume []string) {
+func runProperty(t *testing.T, prop string, configs []*Config, scripted []replayCase, scenarios []scenario, rule string, assume []string) {
 	r := vr.New(t, prop, "model_checking")
 	defer r.Finish()
 	if raw := vr.ReplayCase(); raw != nil {
@@ -486,7 +524,22 @@ func runProperty(t *testing.T, prop string, configs []*Config, scripted []replay
 			t.Fatalf("INFRA: replay case does not parse: %v", err)
 		}
 		c.Config.Preamble = nil
-		res := execute(t, &c.Config, c.Events, true, t.Logf)
+		var res execResult
+		if c.Scenario != "" {
+			found := false
+			for _, sc := range scenarios {
+				if sc.Name == c.Scenario {
+					found = true
+					res = executeDriven(t, &sc.Config, sc.Drive, true, t.Logf)
+					c.Events = res.Events
+				}
+			}
+			if !found {
+				t.Fatalf("INFRA: replay names unknown scenario %q", c.Scenario)
+			}
+		} else {
+			res = execute(t, &c.Config, c.Events, true, t.Logf)
+		}
 		t.Logf("replayed %d events; leaked calls at teardown: %v; panic: %q", res.Applied, res.Leaked, res.Panic)
 		r.Case(pathString(c.Events), true)
 		r.Set("states", 1)
@@ -569,6 +622,46 @@ func runProperty(t *testing.T, prop string, configs []*Config, scripted []replay
 			})
 		}
 	}
+	// Driver-policy scenarios (long timed histories).
+	for i := range scenarios {
+		sc := scenarios[i]
+		res := executeDriven(t, &sc.Config, sc.Drive, false, nil)
+		execs++
+		transitions++
+		states++
+		r.Case("scenario:"+sc.Name, res.Applied > 0)
+		if !res.OK || (res.Panic != "" && len(res.Viol) == 0) {
+			t.Fatalf("INFRA: scenario %s not executable (applied %d events, last %v, panic %q)", sc.Name, res.Applied, res.Events[len(res.Events)-1:], res.Panic)
+		}
+		t.Logf("scenario %s: %d events, %d violation(s)", sc.Name, res.Applied, len(res.Viol))
+		for k, n := range res.Outcomes {
+			for j := 0; j < n && j < 3; j++ {
+				r.Outcome(k)
+			}
+		}
+		for _, v := range res.Viol {
+			if v.Prop != prop {
+				continue
+			}
+			ev := res.Events[:clamp(v.Step+1, len(res.Events))]
+			tail := ev
+			if len(tail) > 12 {
+				tail = tail[len(tail)-12:]
+			}
+			c := replayCase{Config: sc.Config, Events: ev, Scenario: sc.Name, Path: fmt.Sprintf("%d events, ending: %s", len(ev), pathString(tail))}
+			cls := v.Class
+			r.Violate(v.Class+"|scenario:"+sc.Name, fmt.Sprintf("%s [scenario %s, after %s]", v.What, sc.Name, c.Path), c, func() bool {
+				again := executeDriven(t, &sc.Config, sc.Drive, false, nil)
+				for _, v2 := range again.Viol {
+					if v2.Prop == prop && v2.Class == cls {
+						return true
+					}
+				}
+				return false
+			})
+		}
+	}
+	r.Set("scenarios", len(scenarios))
 	r.Set("scripted_histories", len(scripted))
 	r.Set("states", states)
 	r.Set("transitions", transitions)
